@@ -39,6 +39,7 @@ import (
 	"time"
 
 	"github.com/magefile/mage/mg"
+	"github.com/magefile/mage/sh"
 
 	// mage:import
 	_ "MODULE/tools"
@@ -58,6 +59,8 @@ func Probe(ctx context.Context) error {
 	b, _ := json.Marshal(map[string]interface{}{"cwd": cwd, "env": os.Environ(), "verbose": mg.Verbose(), "debug": mg.Debug(),
 		"gocmd": mg.GoCmd(), "plat": platName(), "remaining": rem, "stdin": hex.EncodeToString(sum[:]), "stdinLen": len(in)})
 	fmt.Println("PROBE " + string(b))
+	// the effect of -v on the sh helpers: a command's stdout is shown in verbose mode only
+	sh.Run("echo", "SHMARK")
 	return nil
 }
 
@@ -424,6 +427,7 @@ func c11(c *Ctx) {
 				impl["how"] = "no-probe: " + strings.TrimSpace(string(rr.stderr))
 			} else {
 				impl["verbose"], impl["debug"], impl["gocmd"], impl["cwd"], impl["plat"] = p.Verbose, p.Debug, p.Gocmd, p.Cwd, p.Plat
+				impl["shShown"] = strings.Contains(string(rr.stdout), "SHMARK\n")
 				// deadline: nearest candidate duration (the probe runs within seconds of the start)
 				to := int64(0)
 				if p.Remaining != 0 {
